@@ -337,9 +337,11 @@ AppliedWith(c, P, p, th, lin) ==
 
 (***************************************************************************)
 (* Part 6: histories.  A recorded behaviour x:                             *)
-(*   x.cfg  = [method, dim, exact, rs, api, ue, per]                       *)
+(*   x.cfg  = [method, dim, exact, rs, api, ue, fe, org, per]  (fe: the    *)
+(*   field values are scaled by 2^fe and the results scaled back)         *)
 (*   x.names0 = names of the source arrays in the order of construction    *)
-(*   x.steps = Seq([act, src, pts, prop, lin, res]) - the abstract state   *)
+(*   x.steps = Seq([act, src, pts, pass, prop, lin, res]) - the abstract   *)
+(*   state (pass: which coordinates the last SetPoints passed, PassOK)     *)
 (*   AFTER each action (what the driver told the real object); prop = the  *)
 (*   property an Interpolate step asks for, lin = the claimed linear form  *)
 (*   of the field interpolate(prop) sees (checked: SaneState); for         *)
@@ -361,15 +363,33 @@ Vals3(S) == [a \in 1..Len(S) |-> [k \in 1..Len(S[a].p) |->
              <<S[a].p[k].m, S[a].p[k].rho, S[a].p[k].f, S[a].p[k].g>>]]
 PropsOf(S) == [a \in 1..Len(S) |-> S[a].props]
 PtsXYZ(T) == [i \in 1..Len(T) |-> <<T[i].x, T[i].y, T[i].z>>]
-SaneState(s) ==
+\* order1 computes the density of the sources itself (summation density):
+\* their rho property may be anything, also unset (0)
+SaneState(x, s) ==
     /\ \A k \in 1..Len(Parts(s.src)) :
-          LET q == Parts(s.src)[k] IN q.h >= 1 /\ q.m >= 1 /\ q.rho >= 1
+          LET q == Parts(s.src)[k]
+          IN q.h >= 1 /\ q.m >= 1
+             /\ (q.rho >= 1 \/ (x.cfg.method = "order1" /\ q.rho >= 0))
     /\ s.lin.is => IsLinear(EffParts(s.src, s.prop), s.lin)
+\* set_interpolation_points(x=None, y=None, z=None): "If any of x, y, z is
+\* not passed it is assumed to be 0.0".  s.pass[c] tells whether coordinate c
+\* was passed at the last Reset / SetPoints; the abstract points carry all
+\* three coordinates, an omitted one is the real 0, i.e. the lattice
+\* coordinate -org[c] (real = (org + k) * 2^ue).
+Coord(p, c) == CASE c = 1 -> p.x [] c = 2 -> p.y [] c = 3 -> p.z
+PassOK(x, s) ==
+    /\ \E c \in 1..3 : s.pass[c]
+    /\ x.cfg.api = "eval" => \A c \in 1..3 : s.pass[c]
+    /\ \A i \in 1..Len(s.pts) : \A c \in 1..3 :
+          ~s.pass[c] => Coord(s.pts[i], c) = -x.cfg.org[c]
 \* step k of x is a step of the state machine
 StepOK(x, k) ==
     LET s == x.steps[k]
-    IN /\ s.act \in Acts /\ SaneState(s)
+    IN /\ s.act \in Acts /\ SaneState(x, s)
        /\ k = 1 => s.act = "Reset"
+       /\ s.act \in {"Reset", "SetPoints"} => PassOK(x, s)
+       /\ (k > 1 /\ s.act \notin {"Reset", "SetPoints"}) =>
+              s.pass = x.steps[k - 1].pass
        /\ k > 1 =>
             LET o == x.steps[k - 1]
             IN CASE s.act = "Reset" -> TRUE
